@@ -1259,6 +1259,18 @@ evutil_getaddrinfo_common_(const char *nodename, const char *servname,
 	}
 
 
+	/* A numeric address of the other family can never yield an address of
+	 * the requested family; it is not a hostname to look up. */
+	if (hints->ai_family == PF_INET) {
+		struct in6_addr tmp6;
+		if (1 == evutil_inet_pton_scope(AF_INET6, nodename, &tmp6, &if_index))
+			return EVUTIL_EAI_ADDRFAMILY;
+	} else if (hints->ai_family == PF_INET6) {
+		struct in_addr tmp4;
+		if (1 == evutil_inet_pton(AF_INET, nodename, &tmp4))
+			return EVUTIL_EAI_ADDRFAMILY;
+	}
+
 	/* If we have reached this point, we definitely need to do a DNS
 	 * lookup. */
 	if ((hints->ai_flags & EVUTIL_AI_NUMERICHOST)) {
